@@ -79,7 +79,6 @@ impl Register {
 impl From<gimli::Register> for Register {
     fn from(value: gimli::Register) -> Self {
         match value.0 as i32 {
-            -1 => Register::Rip,
             //-1 => Register::OrigRax,
             0 => Register::Rax,
             1 => Register::Rdx,
@@ -97,6 +96,7 @@ impl From<gimli::Register> for Register {
             13 => Register::R13,
             14 => Register::R14,
             15 => Register::R15,
+            16 => Register::Rip,
             49 => Register::Eflags,
             50 => Register::Es,
             51 => Register::Cs,
